@@ -13,7 +13,7 @@ TRUSTED = ["modelled, not verified: QRegExp ^(\\d*)-(\\d*)$, QString::trimmed (A
 BIG = [0, 1, 2, 2**31 - 2, 2**31 - 1, 2**31, 2**31 + 1, 2**32, 2**53, 2**61, 2**62 - 2, 2**62 - 1]
 
 
-def cases(tier, seed):
+def cases(tier, seed, ctx=None):
     rng = Rng(seed)
     R = range(-12, 13)
     for f in R:
